@@ -22,7 +22,8 @@ def main():
     chan = fakes.FakeChannel()
     GRPCService.start = lambda self: setattr(self, 'channel', chan)
     lives = int(sys.argv[1]) if len(sys.argv) > 1 else 2
-    same = len(sys.argv) > 2 and sys.argv[2] == 'same'       # later lives = Deep.start() on the SAME agent object
+    same = len(sys.argv) > 2 and sys.argv[2].startswith('same')       # later lives = Deep.start() on the SAME agent object
+    noreg = len(sys.argv) > 2 and sys.argv[2] == 'same_noreg'          # ... and nothing is registered in code
     sent = []
 
     def poll(request):
@@ -45,7 +46,7 @@ def main():
             d.task_handler.flush()
             d.task_handler._open = True
             expected, why = 1, 'the service tracepoint'
-            if same:
+            if same and not noreg:
                 if life == 0:
                     # a tracepoint registered in code on the same line: it stays registered for the later lives
                     d.register_tracepoint(os.path.basename(path), marks['beat'], {'fire_count': '-1', 'fire_period': '0'},
